@@ -131,6 +131,14 @@ fn hole_class(t: &Template, p: &[usize], tags: &[String]) -> String {
         let mut ops: Vec<String> = (1..n - 1).filter(|d| p[*d] != 0).map(|d| tags[d].clone()).collect();
         ops.sort();
         ops.dedup();
+        // Name the operator kinds whose folding is sensitive to element type, constant shape or
+        // truth value; the remaining (incidental) operators of the chain are in the replayed
+        // program. If none of these occurs, the full set is named.
+        const PRIMARY: [&str; 6] = ["Div", "[1]-shaped", "Cast to bool", "Where", "Equal", "Slice"];
+        let primary: Vec<String> = ops.iter().filter(|o| PRIMARY.iter().any(|k| o.contains(k))).cloned().collect();
+        if !primary.is_empty() {
+            ops = primary;
+        }
         let mut parts = Vec::new();
         if p[0] != 0 {
             parts.push(format!("start={}", tags[0]));
@@ -267,7 +275,7 @@ pub fn run(ctx: Ctx) -> ! {
                     eprintln!("[trace] {:?} {:?}", p, b.prog.listing());
                 }
                 let r = exec::eval_case(cfgs, &b.prog);
-                if t0.elapsed().as_secs_f64() > 2.0 {
+                if verbose && t0.elapsed().as_secs_f64() > 2.0 {
                     eprintln!("[slow case {:.1}s] {} {:?} {:?}", t0.elapsed().as_secs_f64(), t.name, p, b.prog.listing());
                 }
                 let mut cell = Cell { evaluated: true, core: 0 };
